@@ -98,8 +98,18 @@ func removalsIn(c *an.Ctx, fn *ssa.Function) []removal {
 			out = append(out, removal{kind, call, arg})
 		case name == "store.(*batch).DeleteRange":
 			out = append(out, removal{"pending", call, t.Of(call.Call.Args[1]) + ".." + t.Of(call.Call.Args[2])})
+		case isBuiltinDeleteOnBatch(call):
+			// a removal from the pending batch's maps written out in place (a spliced-in helper)
+			out = append(out, removal{"pending", call, t.Of(call.Call.Args[1]) + ".." + t.Of(call.Call.Args[1])})
 		case name == "store.(*batch).Reset":
 			out = append(out, removal{"pending-reset", call, ""})
+		case cal != nil && cal.Blocks != nil && cal.Signature.Recv() != nil && strings.HasSuffix(cal.Signature.Recv().Type().String(), "store.batch[H]") && deletesFromMaps(cal):
+			// any other method of the pending batch that deletes from its maps (a `Pop`, a `Take`, …)
+			arg := ""
+			if len(call.Call.Args) > 1 {
+				arg = t.Of(call.Call.Args[1])
+			}
+			out = append(out, removal{"pending", call, arg + ".." + arg})
 		}
 	})
 	return out
